@@ -164,7 +164,7 @@ def rule_U2(F, R):
                 R.violation("U2", subj, "early-return-writes", "a path that returns without committing has already written: %s" % show_path(p, interesting=lambda e: any(writers.search(n) for n in e["names"]))[:400], where(b, p.blocks[-1]))
             else:
                 R.ok("U2", "early return without writes: %s" % " ∧ ".join("%s=%s" % (show_atom(a), o) for a, o, _ in p.atoms)[:200], where(b, p.blocks[-1]))
-    R.floor("U2", "early-return paths (empty input, tail mismatch, too long)", n_early, 3)
+    R.floor("U2", "early-return paths (empty input, tail mismatch)", n_early, 2)
     # (ii) the mismatch test: an eq between a suffix slice of unsynced ops of length len(undo) and undo
     uns = calls_matching(c, re.escape(TXN) + "::unsynced_operations$")
     commit = calls_matching(c, re.escape(TXN) + "::commit$")
@@ -191,6 +191,14 @@ def rule_U2(F, R):
                             other_is_undo = _has(s2, lambda z: z == undo_param)
                             if good and other_is_undo:
                                 found_eq = True
+    def _is_ends_with(a, o):
+        return (a[0] == "call" and a[1].endswith("::ends_with") and o is True
+                and _has(a[2][0], lambda v: v[0] == "C" and v[2].endswith("unsynced_operations"))
+                and _has(a[2][1], lambda z: z == undo_param))
+    for p in paths:
+        for (a, o, _bb) in p.atoms:
+            if _is_ends_with(a, o):
+                found_eq = True
     if not found_eq:
         R.violation("U2", subj, "tail-match-test", "no path to the reversal loop is guarded by `unsynced[len(unsynced) - len(undo)..] == undo`: the supplied operations are not checked to be the most recent unsynchronised ones", where(b))
     else:
@@ -200,7 +208,8 @@ def rule_U2(F, R):
         evw = [e for e in p.events if any(n.endswith("::remove_operation") or n.endswith("StorageTxn::commit") or n.endswith("apply::apply_op") for n in e["names"])]
         if not evw:
             continue
-        okp = any(a[0] == "call" and a[1].endswith("PartialEq::eq") and o is True and _has(a[2], lambda v: v[0] == "C" and v[2].endswith("Index::index")) for (a, o, _bb) in p.atoms)
+        okp = any(a[0] == "call" and a[1].endswith("PartialEq::eq") and o is True and _has(a[2], lambda v: v[0] == "C" and v[2].endswith("Index::index")) for (a, o, _bb) in p.atoms) \
+            or any(a[0] == "call" and a[1].endswith("::ends_with") and o is True for (a, o, _bb) in p.atoms)
         if not okp:
             R.violation("U2", subj, "reversal-without-match", "%s is reachable without the tail-match test having succeeded" % evw[0]["callee"].split("::")[-1], where(b, evw[0]["bb"]))
             break
@@ -464,13 +473,25 @@ def rule_R2(F, R):
         R.ok("R2", "new working set starts as [None]", where(b))
     else:
         R.violation("R2", subj, "slot0-not-blank", "the rebuilt working set does not start with exactly one blank entry (position 0 must be empty)", where(b))
-    # scan starts at index 1: an Index::index(old_ws, RangeFrom{start: 1}) feeding the scan iterator
-    idx = [(i, t) for i, t in c.calls() if "std::ops::Index::index" in call_names(t) and any("RangeFrom" in s for s in t.get("substs", []))]
+    # scan starts at index 1: the scan loop's iterator derives from old_ws[1..] or old_ws.iter().skip(1)
+    loops_ = c.loops()
+    scan = None
+    for h_, body_ in loops_.items():
+        if any(any(n.endswith("StorageTxn::get_task") for n in call_names(c.term(i))) for i in body_ if c.term(i) and c.term(i)["k"] == "call"):
+            scan = (h_, body_)
     ok1 = False
-    for (i, t) in idx:
-        d = local_def(fl, op_place(t["args"][1])["l"]) if op_place(t["args"][1]) else None
-        if d and d[0] == "rv" and d[1]["k"] == "agg" and d[1]["ops"] and "k" in d[1]["ops"][0] and str(d[1]["ops"][0]["k"].get("val")) == "1":
-            ok1 = True
+    if scan:
+        its = [(i, c.term(i)) for i in sorted(c.reach) if c.term(i) and c.term(i)["k"] == "call" and any(n.endswith("IntoIterator::into_iter") for n in call_names(c.term(i))) and c.dominates(i, scan[0]) and i not in scan[1]]
+        if its:
+            sl = fl.slice_operand(its[-1][1]["args"][0])
+            for bb_, t_ in sl.calls.items():
+                nm = call_names(t_)
+                if "std::ops::Index::index" in nm and any("RangeFrom" in s_ for s_ in t_.get("substs", [])):
+                    d = local_def(fl, op_place(t_["args"][1])["l"]) if op_place(t_["args"][1]) else None
+                    if d and d[0] == "rv" and d[1]["k"] == "agg" and d[1]["ops"] and "k" in d[1]["ops"][0] and str(d[1]["ops"][0]["k"].get("val")) == "1":
+                        ok1 = True
+                if any(n.endswith("Iterator::skip") for n in nm) and len(t_["args"]) > 1 and "k" in t_["args"][1] and str(t_["args"][1]["k"].get("val")) == "1":
+                    ok1 = True
     if ok1:
         R.ok("R2", "scan starts at old index 1", where(b))
     else:
